@@ -755,6 +755,7 @@ def _generic_rules(chk):
     _g.rule_group_names(chk, idx_, _Res(idx_), 'C13.groups', 'recognizers_sequence', None, floor=1)
     _g.rule_filter_predicates(chk, idx_, 'C13.filters', 'recognizers_sequence', floor=1)
     _g.rule_index_guards(chk, idx_, 'C13.index-guards', 'recognizers_sequence', floor=0)   # floor 0: C13.index-lower decides refactored guards
+    _g.rule_kind_contradictions(chk, idx_, 'C13.offset-kinds', 'recognizers_sequence', floor=8)
 
 
 _run_before_generic = run
